@@ -215,6 +215,17 @@ func execAttack(w *world.World, s Step) bool {
 			per = 2
 		}
 		vs := variants(full, rng, s.Q, per)
+		{
+			// forms that are accepted by design (another valid DH value in a DH-Key) only make
+			// sense when they replace the genuine message
+			kept := vs[:0]
+			for _, v := range vs {
+				if v.name != "gy-other" {
+					kept = append(kept, v)
+				}
+			}
+			vs = kept
+		}
 		if otr3.VerifProject(p.Conv).TheirTag == 0 {
 			// a valid foreign sender tag would (by design) bind the conversation to that instance
 			kept := vs[:0]
@@ -235,7 +246,9 @@ func execAttack(w *world.World, s Step) bool {
 		// unauthenticated plaintext lines (plain and whitespace-tagged) slipped into the conversation
 		w.Text(7777)
 		w.ReceiveAttack(p, [][]byte{w.Text(7777)}, "plaintext")
-		w.ReceiveAttack(p, [][]byte{append(append([]byte{}, w.Text(7777)...), []byte(" \t  \t\t\t\t \t \t \t    \t\t  \t   \t\t  \t\t")...)}, "plaintext-tagged")
+		if !p.Pol.WsStart {
+			w.ReceiveAttack(p, [][]byte{append(append([]byte{}, w.Text(7777)...), []byte(" \t  \t\t\t\t \t \t \t    \t\t  \t   \t\t  \t\t")...)}, "plaintext-tagged")
+		}
 		return true
 	case "TamperOne":
 		// the message at the head of p's queue is replaced by one tampered form (then delivered normally)
